@@ -31,6 +31,12 @@ def directed(judge):
                     out.append({"arch": arch, "prog": [q, {"a": "EnterCalib", "momentum": "m50", "streamline": True}, {"a": "EnterCalib", "momentum": "m90", "streamline": False},
                                                        {"a": "CalibBatch", "batch": "b1"}, {"a": "LibCall"}, {"a": "ForeignBatch"}, {"a": "RaiseIn", "batch": "b2", "k": 1}, {"a": "Forward", "x": "x1"}, {"a": "LibCall"},
                                                        {"a": "EnterCalib", "momentum": "m25", "streamline": False}, {"a": "ExitCalib"}, {"a": "Forward", "x": "x2"}]})
+                    # the same Calibration object entered again while open, left normally / by exception, then an unrelated forward
+                    if aq != "none" and wq in ("qint8", "qint4"):
+                        out.append({"arch": arch, "prog": [q, {"a": "EnterCalib", "momentum": "m50", "streamline": False}, {"a": "CalibBatch", "batch": "b1"}, {"a": "ReEnterCalib"},
+                                                           {"a": "CalibBatch", "batch": "b2"}, {"a": "ExitCalib"}, {"a": "CalibBatch", "batch": "b3"}, {"a": "ExitCalib"}, {"a": "Forward", "x": "x1"}]})
+                        out.append({"arch": arch, "prog": [q, {"a": "EnterCalib", "momentum": "m90", "streamline": True}, {"a": "ReEnterCalib"}, {"a": "RaiseIn", "batch": "b2", "k": 2},
+                                                           {"a": "Forward", "x": "x2"}]})
     return out
 
 
@@ -91,7 +97,7 @@ def ext_switch(c):
 
 def body(c, judge):
     need = {"C08": ["Quantize", "Forward"], "C09": ["Freeze", "DeepCopy"], "C10": ["Save", "Load"], "C11": ["OptStep", "Forward"],
-            "C13": ["RaiseIn", "ExitCalib", "Forward", "LibCall"]}[judge]
+            "C13": ["RaiseIn", "ExitCalib", "ReEnterCalib", "Forward", "LibCall"]}[judge]
     dirs = directed(judge)
     cap = 240 if judge in ("C08", "C10") else 400
     if c.quick and len(dirs) > cap:
